@@ -563,9 +563,11 @@ class Composite(LexicalParent[Node], HasCreator, Node, ABC):
     def _restore_data_connections_from_strings(
         self, connections: list[tuple[tuple[str, str], tuple[str, str]]]
     ) -> None:
+        # Each input lists its connections newest first and connecting prepends, so
+        # walk the list backwards to give every input back its connection priority
         self._restore_connections_from_strings(
             self.children,
-            connections,
+            list(reversed(connections)),
             self._get_data_inputs,
             self._get_data_outputs,
         )
